@@ -24,6 +24,15 @@ Definition run_case (s : sdocument) (op : string) (args : list sexp) : list stri
   else if String.eqb op "strace" then
     List.app (render_strace s)
              ("#SPEC" :: (if no_extensions s then map s_sevent (lin_schema s) else ["PANIC"]))
+  else if String.eqb op "validate" then
+    match args with
+    | [d; SL (Atom _ :: codes)] =>
+        match d_document d, d_list (fun x => match x with Atom a => rule_of_code a | _ => None end) codes with
+        | Some d, Some plan => render_outcome (validate s d plan)
+        | _, _ => ["BADINPUT"]
+        end
+    | _ => ["BADINPUT"]
+    end
   else ["BADOP"].
 
 (* line-level entry points: the driver keeps the current schema *)
